@@ -167,13 +167,23 @@ class Impl:
         if k == "newarr":
             E.append(np.array([float(Fraction(*q)) for q in op["xs"]], dtype=float))
             return None
+        def typed(a, how):
+            """the same numbers handed over as the caller's float array, a list of floats, an integer array
+            (np.arange-like) or a list of Python ints"""
+            if how == "int":
+                return a.astype(int)
+            if how == "intlist":
+                return [int(x) for x in a]
+            if how == "list":
+                return a.tolist()
+            return a
         if k == "mk":
             t = E[op["ta"]]
-            targ = t.tolist() if op.get("aslist") else t
+            targ = typed(t, op.get("ttype") or ("list" if op.get("aslist") else None))
             vt = vt_input(op["vt"], op.get("vtform", "enum"), self.Signal)
             if op["cls"] == 0:
                 v = E[op["va"]]
-                varg = v.tolist() if op.get("aslist") else v
+                varg = typed(v, op.get("vtype") or ("list" if op.get("aslist") else None))
                 return (self.SubSignal if op["sub"] else self.Signal)(targ, varg, vt)
             if op["cls"] == 1:
                 return (self.SubEmpty if op["sub"] else self.EmptySignal)(targ, vt)
@@ -200,7 +210,7 @@ class Impl:
             return x
         if k == "with_times":
             t = E[op["ta"]]
-            return O[op["i"]].with_times(t.tolist() if op.get("aslist") else t)
+            return O[op["i"]].with_times(typed(t, op.get("ttype") or ("list" if op.get("aslist") else None)))
         if k == "shift":
             return O[op["i"]].shift(self.scalar(op["q"], op.get("qform")))
         if k == "settype":
@@ -500,6 +510,20 @@ def oracle(impl, op, before, outc, fnspecs={}, sem_before=None, sem_after=None):
             was = (before["times"][i], before["values"][i], before["vt"][i], before["bufs"][i])
             if was[1] is not None and now != was:
                 bad.append("operand/bystander object %d was modified by %s" % (i, k))
+    if k == "mk" and new is not None:
+        # the constructor keeps the given times and holds the given values zero-padded / truncated to that length,
+        # whatever the types of the arguments (float arrays, lists, integer arrays, lists of ints)
+        t_in = before["ext"][op["ta"]]
+        if fr_list(new.times) != t_in:
+            bad.append("constructed signal does not keep the given times")
+        if op["cls"] == 0:
+            v_in = before["ext"][op["va"]]
+            want = (v_in + [Fraction(0)] * len(t_in))[:len(t_in)]
+            if fr_list(new.values) != want:
+                bad.append("constructed signal does not hold the given values zero-padded / truncated to its grid "
+                           "(argument types: times %s, values %s)" % (op.get("ttype") or "float", op.get("vtype") or "float"))
+        if op["cls"] == 1 and any(v != 0 for v in fr_list(new.values)):
+            bad.append("constructed empty signal is not zero")
     if k == "radd" and op["k"] == 0 and outc != (1, op["i"]):
         bad.append("0 + signal did not return the signal itself")
     if k == "add":
@@ -630,6 +654,21 @@ class Gen:
 
     def is_dec(self, o):
         return self.is_fun(o) and isinstance(o.times, np.ndarray) and self.dec_ok(o.times)
+
+    def int_types(self, op):
+        """integer-typed arguments (list of ints, np.arange-like int array) where the numbers are integers:
+        the time grid always may be integer typed; values only when they are shorter than the grid (they are
+        then zero-padded into a float array; an integer value array that is kept would refuse float scaling)"""
+        r, E = self.rng, self.impl.ext
+        isint = lambda a: len(a) > 0 and all(float(x).is_integer() and abs(x) < 2 ** 40 for x in a)
+        if isint(E[op["ta"]]) and r.random() < 0.5:
+            op["ttype"] = r.choice(["int", "intlist"])
+        if op["op"] == "mk" and op["cls"] == 0 and isint(E[op["va"]]) and len(E[op["va"]]) < len(E[op["ta"]]) and r.random() < 0.5:
+            op["vtype"] = r.choice(["int", "intlist"])
+
+    @staticmethod
+    def int_times(o):
+        return isinstance(o.times, np.ndarray) and o.times.dtype.kind in "iu"
 
     def perturbed(self, base):
         """a grid of the same length that differs MINUTELY from an existing one: one ulp in one sample, a tiny
@@ -765,6 +804,7 @@ class Gen:
             op["va"] = r.choice(nice)
             if c == 2 and r.random() < 0.35:
                 op["fn"] = list(op["fn"][:4]) + [True]          # non-vectorisable backing function
+            self._int_typing = True
             if r.random() < 0.4 and O:
                 # a grid that is almost, but not exactly, the grid of an existing signal
                 near = [a for a in range(len(E)) if any(self.near(E[a], p.times) for p in O)]
@@ -786,6 +826,7 @@ class Gen:
                 op["ta"] = r.choice(oks)
             if c == 2 and len(E[op["ta"]]) < 2:
                 return None
+            self.int_types(op)
             return op
         i = r.randrange(len(O))
         o = O[i]
@@ -832,7 +873,9 @@ class Gen:
                 cands.append(a)
             if not cands:
                 return None
-            return {"op": "with_times", "i": i, "ta": r.choice(cands), "aslist": r.random() < 0.15}
+            wop = {"op": "with_times", "i": i, "ta": r.choice(cands), "aslist": r.random() < 0.15}
+            self.int_types(wop)
+            return wop
         if k in ("add", "addmatch"):
             # a sum involving a decimal-grid FunctionSignal on the same grid would add rounded numbers
             pass
@@ -913,7 +956,9 @@ class Gen:
                 cands = list(range(len(E)))
             if not cands:
                 return None
-            return {"op": "with_times", "i": i, "ta": r.choice(cands), "aslist": r.random() < 0.15}
+            wop = {"op": "with_times", "i": i, "ta": r.choice(cands), "aslist": r.random() < 0.15}
+            self.int_types(wop)
+            return wop
         if k == "shift":
             q = Fraction(r.randint(-12, 12), r.choice([1, 1, 2, 4, 8]))
             if self.tspan(o.times) > 38:
@@ -924,6 +969,9 @@ class Gen:
                 q = Fraction(r.randint(-12, 12)) * abs(frac(o.times[1]) - frac(o.times[0]))   # shift by whole samples
             if any(Fraction(float(x) + float(q)) != frac(x) + q for x in o.times):
                 q = Fraction(0)          # e.g. a grid with a one-ulp perturbation: the shifted times would round
+            if self.int_times(o):
+                # an integer time array cannot take a float in place (NumPy casting rule, not modelled): whole steps
+                return {"op": "shift", "i": i, "q": q_of(Fraction(int(q))), "qform": "int"}
             return {"op": "shift", "i": i, "q": q_of(q), "qform": qform}
         if k == "settype":
             return {"op": "settype", "i": i, "vt": r.randrange(4), "vtform": r.choice(["enum", "int", "str", "none"])}
@@ -946,7 +994,8 @@ class Gen:
             kk = r.randrange(n + 1) if self.malformed or n == 0 else r.randrange(n)
             if self.is_fun(o):
                 return None
-            return {"op": "poketimes", "i": i, "k": kk, "q": q_of(Fraction(r.randint(-40, 40), r.choice([1, 2, 4])))}
+            return {"op": "poketimes", "i": i, "k": kk,
+                    "q": q_of(Fraction(r.randint(-40, 40), 1 if self.int_times(o) else r.choice([1, 2, 4])))}
         if k == "pokevals":
             if I.cls_of(o)[0] != 0:
                 return None
@@ -1323,6 +1372,29 @@ def regrid_suite():
     return hs
 
 
+def constructor_suite():
+    """constructor pad / truncate branches x argument typings (float array, list, int array, list of ints) for the
+    time grid and for the values (integer-typed values where they are shorter than the grid), each followed by a copy,
+    a whole-sample shift and a sum with itself"""
+    hs = []
+    grid = [[k, 1] for k in range(-2, 4)]
+    for vals in ([[1, 2], [-3, 4], [5, 2]], [[7, 1], [-2, 1]], [[1, 4]] * 6, [[1, 2]] * 8, []):
+        for ttype in (None, "list", "int", "intlist"):
+            for vtype in (None, "list") + (("int", "intlist") if all(v[1] == 1 for v in vals) and len(vals) < len(grid) and vals else ()):
+                op = {"op": "mk", "cls": 0, "sub": False, "ta": 0, "va": 1, "vt": 1, "vtform": "enum", "fn": ["affine", [1, 1], [0, 1], [0, 1]]}
+                if ttype:
+                    op["ttype"] = ttype
+                if vtype:
+                    op["vtype"] = vtype
+                hs.append([{"op": "newarr", "xs": grid}, {"op": "newarr", "xs": vals}, op, {"op": "copy", "i": 0},
+                           {"op": "shift", "i": 0, "q": [2, 1], "qform": "int"}, {"op": "add", "i": 1, "j": 1},
+                           {"op": "mk", "cls": 2, "sub": False, "ta": 0, "va": 0, "vt": 0, "vtform": "enum", "fn": ["affine", [1, 2], [1, 1], [0, 1]],
+                            **({"ttype": ttype} if ttype else {})},
+                           {"op": "mk", "cls": 1, "sub": False, "ta": 0, "va": 0, "vt": 0, "vtform": "enum", "fn": ["affine", [1, 2], [1, 1], [0, 1]],
+                            **({"ttype": ttype} if ttype else {})}])
+    return hs
+
+
 def load_corpus():
     d = os.path.join(common.ROOT, "corpus", "C04")
     out = []
@@ -1370,6 +1442,9 @@ def run(ctx):
     for ops in regrid_suite():
         o, st, comp = execute(None, fixed_ops=ops)
         histories.append(("regrid-suite", o, st, comp))
+    for ops in constructor_suite():
+        o, st, comp = execute(None, fixed_ops=ops)
+        histories.append(("constructor-suite", o, st, comp))
     near = exhaustive_near()
     n_refused = 0
     for ops in near:
@@ -1379,7 +1454,7 @@ def run(ctx):
     ctx.oblige("corr:minutely-different-grids-refused", n_refused == 2 * len(near),
                "%d of %d sums over minutely different grids were refused" % (n_refused, 2 * len(near)))
     ctx.extra["near_equal_grid_pairs"] = {"histories": len(near), "refused_sums": n_refused, "expected_refused": 2 * len(near)}
-    n_rand = ctx.n(100, 4000)
+    n_rand = ctx.n(90, 3500)
     for n in range(n_rand):
         biased = (n % 4 == 1)
         o, st, comp = execute(None, rng=rng, max_ops=rng.choice([10, 18] if biased else [8, 15, 30, 30]), malformed=(n % 6 == 5),
